@@ -18,11 +18,12 @@ def run(ctx):
                             constants={"Vals": ctx.pick("{1}", "{1, 2}")})
             if not ctx.quick():
                 ctx.model_check("trie", "MC_StateSync", "MC_StateSync_6.cfg", timeout=3000)
-            ctx.exhaustive = True
-        allb = ctx.behaviours("trie", "Gen_StateSync", "Gen_StateSync.cfg", simulate="num=%d" % ctx.pick(70, 3000),
+            ctx.exhaustive = False  # TLC stage exhaustive; the replayed behaviours are random walks
+        allb = ctx.behaviours("trie", "Gen_StateSync", "Gen_StateSync.cfg", simulate="num=%d" % ctx.pick(90, 600),
                               depth=42, seed=ctx.seed, timeout=ctx.pick(900, 3000))
-        allb += ctx.behaviours("trie", "Gen_StateSync", "Gen_StateSync_w3.cfg", simulate="num=%d" % ctx.pick(30, 1500),
-                               depth=52, seed=ctx.seed + 7, timeout=ctx.pick(900, 3000))
+        if not ctx.quick():  # three-symbol alphabet (6561 initial target maps are enumerated first: thorough only)
+            allb += ctx.behaviours("trie", "Gen_StateSync", "Gen_StateSync_w3.cfg", simulate="num=300",
+                                   depth=52, seed=ctx.seed + 7, timeout=3000)
         for b in allb[:3]:
             ctx.sample([{k: s.get(k) for k in ("op", "i", "res", "unres", "nstored", "map") if k in s} for s in b[:14]])
     inp = ctx.path("in", "behaviours.ndjson")
@@ -34,7 +35,7 @@ def run(ctx):
     done = sum((r.get("extra") or {}).get("completed_syncs", 0) for r in recs if r.get("summary"))
     ctx.notes.append("behaviours that run the sync to completion (rebuilt trie compared with the source): %d" % done)
     return ctx.finish(
-        rule="a behaviour = one target trie (random map over 8-10 keys with shared prefixes, 2 object values so that "
+        rule="a behaviour = one target trie (random map over 8 keys with shared prefixes, 2 object values so that "
              "data and subtrees are shared) plus one TLC-chosen arrival sequence: answers to the i-th outstanding request "
              "in any order, duplicates, forged payloads, genuine but unrequested entries; distinct by (map, arrival "
              "sequence); non-trivial if the sync completes (then the rebuilt trie is compared with the source)",
